@@ -1,9 +1,15 @@
 (* C07 - every model the topology API builds satisfies the published graph rules.
-   Statements only; each is closed by `exact` of a lemma from Proofs/T7*.v. *)
+   Only statements; each is closed by `exact` of a lemma from Proofs/T7*.v.
+   The model: Model/T7Graph.v (graph, primitive mutations, state/exception monad), Model/T7Ops.v (the building
+   calls as monadic programs, `step`), Model/T7WF.v (the rules: boolean wf_b and declarative WF, the views),
+   Model/T7Steps.v (unit mutations, their side conditions, the claim about histories: op_pre, run_hist, pre_along).
+   Tables regenerated from the source: Gen/Rules.v, pinned in Model/T7Pinned.v. *)
 From Coq Require Import String List NArith Bool.
-From FIM Require Import Base.Str Gen.Rules Model.T7Pinned Model.T7Graph Model.T7Ops Model.T7WF Proofs.T7Tables.
+From FIM Require Import Base.Str Gen.Rules Model.T7Pinned Model.T7Graph Model.T7Ops Model.T7WF Model.T7Steps
+     Proofs.T7Tables Proofs.T7WFRefl Proofs.T7Units Proofs.T7Api Proofs.T7Views Proofs.T7Refuted.
 Import ListNotations.
 
+(* ---- the tables ------------------------------------------------------------------------------------------ *)
 (* the translator recognised every source it reads (fail-closed flag) *)
 Theorem C07_translated : gen_ok = true.
 Proof. exact tables_gen_ok. Qed.
@@ -14,3 +20,158 @@ Print Assumptions C07_translated.
 Theorem C07_tables_are_pinned : all_tables = all_pinned.
 Proof. exact tables_are_pinned. Qed.
 Print Assumptions C07_tables_are_pinned.
+
+(* every member of the enums the API takes may be written under the published vocabularies ... *)
+Theorem C07_node_types_in_vocabulary : forall t, In t enum_node_types -> type_allowed KNode t = true.
+Proof. exact node_types_in_vocab. Qed.
+Print Assumptions C07_node_types_in_vocabulary.
+Theorem C07_component_types_in_vocabulary : forall t, In t enum_component_types -> type_allowed KComp t = true.
+Proof. exact component_types_in_vocab. Qed.
+Print Assumptions C07_component_types_in_vocabulary.
+Theorem C07_interface_types_in_vocabulary : forall t, In t enum_interface_types -> type_allowed KCP t = true.
+Proof. exact interface_types_in_vocab. Qed.
+Print Assumptions C07_interface_types_in_vocabulary.
+Theorem C07_link_types_in_vocabulary : forall t, In t enum_link_types -> type_allowed KLink t = true.
+Proof. exact link_types_in_vocab. Qed.
+Print Assumptions C07_link_types_in_vocabulary.
+(* ... FULL STATEMENT for services (false of the current tree):
+       forall t, In t enum_service_types -> type_allowed KNS t = true *)
+Theorem C07_service_types_in_vocabulary_partial :
+  forall t, In t enum_service_types -> t <> sL2Multisite -> type_allowed KNS t = true.
+Proof. exact service_types_in_vocab_partial. Qed.
+Print Assumptions C07_service_types_in_vocabulary_partial.
+Theorem C07_service_vocabulary_refuted :
+  In sL2Multisite enum_service_types /\ WF empty_graph /\ ~ WF (fst (step false empty_graph w_vocab_op [S "g1x0"] [])).
+Proof. exact service_vocabulary_refuted. Qed.
+Print Assumptions C07_service_vocabulary_refuted.
+(* the types the API chooses itself (catalogue components, facility / switch / peering constructs) *)
+Theorem C07_builtin_types_in_vocabulary : builtin_types_ok = true.
+Proof. exact builtin_types_in_vocab. Qed.
+Print Assumptions C07_builtin_types_in_vocabulary.
+
+(* ---- the rules -------------------------------------------------------------------------------------------- *)
+(* the boolean checker the harness evaluates on every snapshot of the implementation decides the declarative
+   statement of the rules (fields, vocabularies, distinct ids, one owning node per component, one owner per
+   interface, links join only interfaces, one peer per service port, names unique per scope) *)
+Theorem C07_wf_b_decides_WF : forall g, wf_b g = true <-> WF g.
+Proof. exact wf_b_reflect. Qed.
+Print Assumptions C07_wf_b_decides_WF.
+
+(* ---- the unit mutations keep the rules (arbitrary graph, arbitrary element) -------------------------------- *)
+Theorem C07_add_plain_preserves : forall g n, WF g -> plain_ok g n = true -> WF (add_plain g n).
+Proof. exact WF_add_plain. Qed.
+Print Assumptions C07_add_plain_preserves.
+(* element + owner edge as a unit: component, node-level service, interface, sub-interface *)
+Theorem C07_add_owned_preserves : forall g n a r, WF g -> owned_ok g n a r = true -> WF (add_owned g n a r).
+Proof. exact WF_add_owned. Qed.
+Print Assumptions C07_add_owned_preserves.
+Theorem C07_add_link_edge_preserves : forall g l i, WF g -> link_edge_ok g l i = true -> WF (add_link_edge g l i).
+Proof. exact WF_add_link_edge. Qed.
+Print Assumptions C07_add_link_edge_preserves.
+Theorem C07_relabel_preserves : forall g x f, WF g -> relabel_ok g x f = true -> WF (relabel g x f).
+Proof. exact WF_relabel. Qed.
+Print Assumptions C07_relabel_preserves.
+(* removal of ANY closed set of elements (owners take their components / services / interfaces along, a service
+   port survives only with its link and peer): every removal program deletes by delete_node only *)
+Theorem C07_closed_removal_preserves : forall g del, WF g -> closed_b g del = true -> WF (remove_set g del).
+Proof. exact WF_remove_set. Qed.
+Print Assumptions C07_closed_removal_preserves.
+
+(* ---- the building calls ------------------------------------------------------------------------------------ *)
+(* FULL STATEMENT (false of the faithful model, see the ..._refuted theorems):
+     forall sub g o drawn hint, WF g -> WF (fst (step sub g o drawn hint))
+   PROVED for the calls listed in op_pre (Model/T7Steps.v): add_node, node.add_network_service,
+   add_network_service without interfaces, add_link, remove_link, add_child_interface, rename, set_property,
+   unset_property -- whatever the outcome of the call (normal return or any exception, with the partial effects
+   made before it).  NOT proved (covered by the wf_b evaluation on implementation snapshots only): add_component,
+   add_storage, add_facility, add_switch, add_network_service with interfaces, port mirror, connect / disconnect,
+   peer / unpeer, the removals other than remove_link. *)
+Theorem C07_step_preserves_partial :
+  forall sub g o drawn hint g' out, WF g -> op_pre g o = true -> step sub g o drawn hint = (g', out) -> WF g'.
+Proof. exact step_preserves_partial. Qed.
+Print Assumptions C07_step_preserves_partial.
+
+(* all histories of proved calls, by induction over the history, from any well-formed model *)
+Theorem C07_all_histories_partial :
+  forall sub h g, WF g -> pre_along sub g h = true -> WF (run_hist sub g h).
+Proof. exact histories_partial. Qed.
+Print Assumptions C07_all_histories_partial.
+Theorem C07_empty_model_well_formed : WF empty_graph.
+Proof. exact WF_empty. Qed.
+Print Assumptions C07_empty_model_well_formed.
+
+(* the defects that make the full statement false *)
+Theorem C07_rename_refuted :
+  let g := run_hist false empty_graph w_rename_hist in WF g /\ ~ WF (fst (step false g w_rename_op [] [])).
+Proof. exact rename_refuted. Qed.
+Print Assumptions C07_rename_refuted.
+Theorem C07_add_facility_refuted : WF empty_graph /\ ~ WF (fst (step false empty_graph w_facility_op [] [])).
+Proof. exact add_facility_refuted. Qed.
+Print Assumptions C07_add_facility_refuted.
+Theorem C07_remove_link_refuted :
+  let g := run_hist false empty_graph w_link_hist in WF g /\ ~ WF (fst (step false g w_link_op [] [])).
+Proof. exact remove_link_refuted. Qed.
+Print Assumptions C07_remove_link_refuted.
+
+(* ---- the read-only views ----------------------------------------------------------------------------------- *)
+Theorem C07_view_nodes_exact : forall g, WF g -> view_nodes g = map nid (nodes_view g).
+Proof. exact view_nodes_exact. Qed.
+Print Assumptions C07_view_nodes_exact.
+Theorem C07_view_facilities_exact : forall g, WF g -> view_facilities g = map nid (facilities_view g).
+Proof. exact view_facilities_exact. Qed.
+Print Assumptions C07_view_facilities_exact.
+Theorem C07_view_links_exact : forall g, WF g -> view_links g = map nid (of_class KLink g).
+Proof. exact view_links_exact. Qed.
+Print Assumptions C07_view_links_exact.
+Theorem C07_view_interface_list_exact :
+  forall g, WF g -> view_interface_list g = flat_map (node_ifs g) (map nid (nodes_view g)).
+Proof. exact view_interface_list_exact. Qed.
+Print Assumptions C07_view_interface_list_exact.
+(* FULL STATEMENT (false): forall g, WF g -> view_services g = map nid (of_class KNS g) *)
+Theorem C07_view_services_exact_partial :
+  forall g, NoDup (map nname (of_class KNS g)) -> view_services g = map nid (of_class KNS g).
+Proof. exact view_services_exact_partial. Qed.
+Print Assumptions C07_view_services_exact_partial.
+Theorem C07_view_services_refuted :
+  let g := run_hist false empty_graph w_services_hist in WF g /\ length (view_services g) <> length (of_class KNS g).
+Proof. exact view_services_refuted. Qed.
+Print Assumptions C07_view_services_refuted.
+(* ViewOnlyDict(Mapping) defines read methods only *)
+Theorem C07_viewonly_read_methods :
+  viewonly_bases = [S "Mapping"] /\ forall m, In m viewonly_methods -> In m read_methods.
+Proof. exact viewonly_is_read_only. Qed.
+Print Assumptions C07_viewonly_read_methods.
+
+(* ---- non-vacuity ------------------------------------------------------------------------------------------- *)
+(* a model built by calls outside the proved set (component with interfaces, service with a connection) ... *)
+Definition ex_base : graph := run_hist false empty_graph
+  [(OAddNode (S "n1") None (S "VM"), [S "u1"], []);
+   (OAddComponent (S "u1") (S "c1") None (S "SmartNIC") (S "ConnectX-6") None None, [S "u2"; S "u3"; S "u4"; S "u5"], []);
+   (OAddComponent (S "u1") (S "c2") None (S "SharedNIC") (S "ConnectX-6") None None, [S "u6"; S "u7"; S "u8"], []);
+   (OAddNS (S "s1") None (S "L2Bridge") [S "u7"], [S "u9"; S "u10"; S "u11"], [])].
+(* ... extended by a history of proved calls whose preconditions all hold: the hypothesis of
+   C07_all_histories_partial is satisfied by a non-trivial history (12 elements, 11 edges at the end) *)
+Definition ex_hist : list hstep :=
+  [(OAddNode (S "n2") None (S "Server"), [S "v1"], []);
+   (ONodeAddNS (S "v1") (S "ns") None (S "P4"), [S "v2"], []);
+   (OAddSub (S "u3") (S "sub1") None true, [S "v3"], []);
+   (OAddLink (S "l1") None (S "L2Path") [S "u3"; S "u4"], [S "v4"], []);
+   (ORename (RNode (S "v1")) (S "n3"), [], []);
+   (OSetProp (RIface (S "u4")) PLabels (S ""), [], []);
+   (OUnsetProp (RIface (S "u4")) ULabels, [], []);
+   (ORemoveLink (S "l1"), [], []);
+   (OAddNS (S "s2") None (S "L2STS") [], [S "v5"], [])].
+Example C07_histories_hypothesis_satisfiable :
+  wf_b ex_base = true /\ pre_along false ex_base ex_hist = true /\
+  length (gnodes (run_hist false ex_base ex_hist)) = 15 /\ wf_b (run_hist false ex_base ex_hist) = true.
+Proof. vm_compute. repeat split. Qed.
+(* a closed removal set that is not trivial: the component c1 with its service, ports and sub-interface *)
+Example C07_closed_removal_satisfiable :
+  let g := run_hist false ex_base (firstn 3 ex_hist) in
+  let del := fun y => mem_str y [S "u2"; S "u3"; S "u4"; S "u5"; S "v3"] in
+  closed_b g del = true /\ length (gnodes (remove_set g del)) = 9.
+Proof. vm_compute. split; reflexivity. Qed.
+(* the side condition of add_owned on a real element: a sub-interface under a dedicated port *)
+Example C07_owned_ok_satisfiable :
+  owned_ok ex_base (mkNode (S "new") KCP (Some sSubInterface) (Some (S "sub9")) true) (S "u3") Connects = true.
+Proof. vm_compute. reflexivity. Qed.
